@@ -405,6 +405,7 @@ Proof.
   - (* Pratt *) apply (proj1 (pratt_good _ IH m g ops ctx n)).
   - (* GroupArr *) apply group_loop_good; exact IH.
   - (* NestedIn *) cbn [nested no_quirks]. repeat split; cbn; discriminate.
+  - (* WithState *) cbn [nested no_quirks]. repeat split; cbn; discriminate.
   - (* Skip *) auto with gd.
   - (* ExtWrap *) sg IH n m g ctx s.
     destruct (alt s0) as [[q e]|]; [good_err_tac | contradiction].
